@@ -113,6 +113,11 @@ for mod, cfg, what in [("graph/StableImpl", "MCStableImplNeg.cfg", "reverse() sw
     r = tlc(mod, cfg, workers=6, timeout=600)
     expect("%s negative config violates Inv: %s" % (mod.split("/")[1], what), any("Invariant Inv is violated" in e for e in r.errors), str(r.errors[:1]))
 
+for mut, what in [("skip_last_col", "element-wise row move starting one column short"), ("ascending", "overlapping row moved first column first"),
+                  ("rows_from_2", "outer loop skipping row 1")]:
+    r = tlc("simple/MatrixGrow", "MatrixGrowNeg_%s.cfg" % mut, workers=2, timeout=300)
+    expect("MatrixGrow mutant %s violates Laid: %s" % (mut, what), any("Invariant Laid is violated" in e for e in r.errors), str(r.errors[:1]))
+
 bad = [r for r in results if not r["ok"]]
 os.makedirs(os.path.join(VERIF, "evidence"), exist_ok=True)
 json.dump({"tests": results, "failed": len(bad)}, open(os.path.join(VERIF, "evidence", "selftest.json"), "w"), indent=1)
